@@ -23,6 +23,8 @@ def best_certificate(exp, rng):
             best = (score, S)
     return best[1]
 
+TEMP = {"celsius": (Fraction(1), Fraction("273.15")), "Rankine": (Fraction(5, 9), Fraction(0)), "fahrenheit": (Fraction(5, 9), Fraction("459.67") * Fraction(5, 9))}
+
 def main():
     c = Check("C09")
     c.static_theorems()
@@ -167,6 +169,16 @@ def main():
                 key = "si-value:routed-through-inconsistent-edge" if expl and info.get(i, {}).get("model_ok") else f"si-value:{cs['name']}"
                 repl["oracle"] = {"want": float(want), "got": float(got)}
                 c.violation(key, f"{cs['name']} {cs['dir']} SI: {float(got)} instead of {float(want)}", repl)
+        # the temperature scales reach kelvin by their affine definitions (value-level oracle as in C10; the declarations themselves are C10's)
+        tn = cs["name"]
+        if ratio is None and tn in TEMP and len(res["m"]) == 3:
+            a_, b_ = TEMP[tn]
+            x = frac(cs["a"]["m"])
+            want = a_ * x + b_ if cs["dir"] == "to" else (x - b_) / a_
+            got = frac(res["m"])
+            if abs(got - want) > Fraction(1, 10**9) * max(abs(want), 1):
+                repl["oracle"] = {"want": float(want), "got": float(got)}
+                c.violation(f"si-value:{tn}", f"{tn} {cs['dir']} kelvin: {float(got)} instead of {float(want)}", repl)
         if cs["dir"] == "to":
             pairs.append(f"({cunit3(res['source'])}, {cunit3(res['target'])})"); units += [res["source"], res["target"]]
     td = convlib.table_defs(ex2, [x for x in units if "of" in x])
